@@ -19,6 +19,7 @@ API (everything else is private)
   ``.circuits`` / ``.streams``  id -> live ``CircuitM`` / ``StreamM`` (client view == Tor's live set)
   ``.all_circuits`` / ``.all_streams``   every incarnation ever created, in creation order
   ``.close_command(line)``    reference answer (reply dict) to ``CLOSECIRCUIT``/``CLOSESTREAM``
+  ``.close_step_for(m)``      the step record that makes tor report live object ``m`` gone next
 ``CircuitM`` fields           ``id inc status purpose build_flags kw path_ids() reached_built gone``
 ``StreamM`` fields            ``id inc status circ (CircuitM|None) target first_target remap_host
                               source (addr, port)|None first_status gone doomed``
@@ -465,7 +466,7 @@ class World(object):
     def _op_c_progress(self, a, b, c):
         circ = self._pick(self._circ_list(lambda x: x.phase in ("building", "guard_wait")), a)
         if circ is None:
-            return None
+            return self._op_c_launch(a, b, c)       # nothing is being built: start something
         if circ.phase == "building" and len(circ.path) < len(circ.plan):
             return self._op_c_extend(self._index_among(
                 lambda x: x.phase == "building" and len(x.path) < len(x.plan), circ), b, c)
@@ -581,7 +582,7 @@ class World(object):
         s = self._pick(self._stream_list(lambda x: not x.doomed and (
             x.phase in ("new", "detached") or (x.phase == "sent" and x.kind == "connect"))), a)
         if s is None:
-            return None
+            return self._op_s_new(a, b, c)          # nothing to move forward: a new connection arrives
         if s.phase == "sent":
             return self._op_s_succeeded(self._stream_list(
                 lambda x: x.phase == "sent" and x.kind == "connect" and not x.doomed).index(s), b, c)
@@ -665,6 +666,16 @@ class World(object):
         if s is None:
             return None
         return self._stream_report(s, "CONTROLLER_WAIT")
+
+    def close_step_for(self, m):
+        """The step record that makes tor report live object ``m`` (CircuitM/StreamM) gone next."""
+        if isinstance(m, CircuitM):
+            cand = self._circ_list(lambda x: True)
+            pref = [x for x in cand if x.close_requested or any(s.circ is x for s in self.streams.values())]
+            return ["c_close", (pref or cand).index(m), 0, 0] if m in (pref or cand) else None
+        cand = self._stream_list(lambda x: True)
+        pref = [x for x in cand if x.doomed or x.close_requested]
+        return ["s_close", (pref or cand).index(m), 0, 0] if m in (pref or cand) else None
 
     # ---------------------------------------------------------------- commands
     def close_command(self, line):
